@@ -160,6 +160,12 @@ class Simulator(Computer, _mixins.CodeMixin):
             if not instruction.modes:
                 continue
 
+            if len(set(instruction.modes)) != len(instruction.modes):
+                raise InvalidModes(
+                    f"Instruction '{instruction}' addresses the modes "
+                    f"'{instruction.modes}', which should be distinct."
+                )
+
             for mode in instruction.modes:
                 if mode < 0 or mode >= d:
                     if d > 1:
